@@ -23,6 +23,7 @@ TRUSTED_BASE = TRUSTED + [
     "the declarations the proofs assume are re-checked by `rfl` on every run (SchemaTie/Classify.lean)",
 ]
 SCHEMA_TIE = ('Classify',)
+SQL_TIE = ('classify',)
 ASSUMPTIONS = ASSUME + ["SQLite's SUM is compared with the exact rational sum within 1e-9 relative"]
 RULE = ("as C01, plus every boolean vector up to length 10 (quick) / 14 (thorough) through "
         "classify.get_true_interval_masks against the model's trueRuns; boundary stream with intensities and "
